@@ -698,6 +698,34 @@ pub fn generate_reads(ctx: &mut Ctx, prop: &str) {
                 }
             }
         }
+        // 1e. a backlog larger than the connection's 6120-byte receive buffer, offered in one piece and in pieces that never let
+        // the buffer run empty, with a frame straddling the 6120th byte — keep-alives before, across and after that point
+        {
+            let small8 = vec![size_byte(compressed, 8), 4, 1, 6, 0xfd, 2, 0, 0];
+            let bigs = big_frames(compressed);
+            let big = bigs.iter().max_by_key(|f| f.len()).cloned().unwrap_or(small8.clone());
+            for variant in 0..4usize {
+                let mut frames: Vec<Vec<u8>> = vec![];
+                let mut total = 0usize;
+                // fill up to just below 6120 so that the next (multi-word) frame straddles the mark at different offsets
+                let target = [6116usize, 6112, 6100, 5900][variant];
+                while total + big.len() + 4 <= target { frames.push(big.clone()); total += big.len(); frames.push(ka.clone()); total += 4; }
+                while total + 4 <= target { frames.push(ka.clone()); total += 4; }
+                frames.push(if variant == 3 { big.clone() } else { small8.clone() });
+                frames.push(ka.clone());
+                frames.push(ping.clone());
+                frames.push(big.clone());
+                frames.push(ka.clone());
+                let stream = frames.concat();
+                for fl in [Flavour::Blocking, Flavour::Tokio] {
+                    for evs in [vec![Ev::Data(stream.clone()), Ev::Eof],
+                                vec![Ev::Data(stream[..3000].to_vec()), Ev::Data(stream[3000..].to_vec()), Ev::Eof],
+                                vec![Ev::Data(stream[..6120.min(stream.len())].to_vec()), Ev::Data(stream[6120.min(stream.len())..].to_vec()), Ev::Eof]] {
+                        let _ = read_case(ctx, prop, &Case { fl, compressed, verify: false, frames: frames.clone(), events: evs, wscript: vec![] });
+                    }
+                }
+            }
+        }
         // 1b. the largest frames a size byte can announce (255 x 4 = 1020 bytes compressed, 255 bytes uncompressed), decodable
         // (a padded TINY) and undecodable (unknown type), between ordinary frames
         {
